@@ -112,6 +112,14 @@ CLAIMED = {
          "working tree by the translator and by evaluating the real IBond/IAngle/IDihedral/PotentialFunction classes on generated inputs.",
          "Lean kernel + three standard axioms; translator tr_c07.py (cexpr); witnesses for sqrt/exp (20-digit rational sqrt, libm exp); PARTIAL: middle-bead derivatives via sum-to-zero + numeric check; singular geometries excluded.",
          "6/C07"),
+ "C06": ("Lean 4 proof over real matrices (Mathlib Matrix/dotProduct: orthogonal eigen-decomposition inverse, positive-definiteness, KKT sufficiency) and over "
+         "lists (index-range partition) + exact per-run certificates computed by the model on the outputs of the real csg_imc_solve executable and of "
+         "linalg_constrained_qrsolve",
+         "tikhonov / imc_solution: the inverse csg_imc_solve builds solves (AᵀA + r)x = -Aᵀb; unique for r > 0; kkt_optimal: feasibility + stationarity imply "
+         "the constrained minimum; split_partition. Tied to the working tree by running the executable on generated files (exact residual for the file's "
+         "matrix, exact solution, table split) and the library routine (KKT residuals).",
+         "Lean kernel + three standard axioms; Eigen kernels external (certified per run); PARTIAL: csg_fmatch's assembly and block averaging not modelled.",
+         "6/C06"),
 }
 REASONS = {}
 
